@@ -26,6 +26,7 @@ func init() {
 	work.Register("C09", "c09.multi", c09Multi)
 	work.Register("C09", "c09.strings", c09Strings)
 	work.Register("C09", "c09.retain", c09Retain)
+	work.Register("C09", "c09.members", c09Members)
 	// the same executions decide a clause of C07: a Decode writes only inside the graph of its own
 	// destination, so values an earlier Decode of the same stream produced keep their contents
 	work.Register("C07", "c07.retain", c09Retain)
@@ -917,4 +918,153 @@ func c09Retain(c *work.Ctx) {
 			}
 		}
 	}
+}
+
+// ---- object members under every cut ---------------------------------------------------------
+
+// c09Members: objects of one or two members decoded into struct and map destinations under every
+// single cut (thorough: every pair of cuts) and in pieces of 1..4 bytes. Keys: known, unknown,
+// a prefix / an extension of a known name, re-cased, and the same with simple escapes, \u escapes
+// and raw multi-byte characters at the front, in the middle and at the end; white space of 0..2
+// bytes before and after the colon; values of every kind (the unknown ones are skipped by the
+// stream's skip functions, the known ones decoded). This is the grid on which the stream
+// decoder's key matcher, its not-found scanner and its value skipper take their refill decisions.
+func c09Members(c *work.Ctx) {
+	bs := "\\"
+	keys := []string{"a", "b", "zz", "ab", "A", "", bs + "u0061", "a" + bs + "n", bs + "n", bs + bs, "z" + bs + `"q`, bs + "u00e9", "é", "z" + bs + "ud83d" + bs + "ude00", "b" + bs + "/", bs + "u0062"}
+	values := []string{"12345", "-1.5e3", `"s"`, `"s` + bs + `n` + bs + `"é"`, "true", "null", "[1, 2]", `{"x":"y"}`, `"é😀"`, "[]", `{"k":[{"d":null}]}`, "0"}
+	seps := [][2]string{{"", ""}, {" ", ""}, {"", "  "}, {"\n", " "}}
+	type sAB struct {
+		A interface{} `json:"a"`
+		B interface{} `json:"b"`
+	}
+	type s9 struct {
+		A, B, C, D, E, F, G, H interface{}
+		Ab                     interface{} `json:"ab"`
+	}
+	dests := []struct {
+		name string
+		t    reflect.Type
+	}{
+		{"struct{A,B interface{}}", reflect.TypeOf(sAB{})},
+		{"struct of 9 members", reflect.TypeOf(s9{})},
+		{"map[string]interface{}", reflect.TypeOf(map[string]interface{}(nil))},
+		{"interface{}", reflect.TypeOf((*interface{})(nil)).Elem()},
+	}
+	keyShape := func(k string) string {
+		var f []string
+		switch {
+		case k == "":
+			f = append(f, "empty")
+		case strings.HasPrefix(k, bs):
+			f = append(f, "escape first")
+		case strings.Contains(k, bs):
+			f = append(f, "escape inside")
+		}
+		if strings.Contains(k, bs+"u") {
+			f = append(f, `\u`)
+		}
+		if strings.Contains(k, bs+`"`) {
+			f = append(f, "escaped quote")
+		}
+		for _, r := range k {
+			if r >= 0x80 {
+				f = append(f, "raw multi-byte")
+				break
+			}
+		}
+		if len(f) == 0 {
+			return "plain"
+		}
+		return strings.Join(f, "+")
+	}
+	valShape := func(v string) string {
+		switch v[0] {
+		case '"':
+			return "string"
+		case '[':
+			return "array"
+		case '{':
+			return "object"
+		case 't', 'n':
+			return "literal"
+		}
+		return "number"
+	}
+	for ki, k := range keys {
+		for vi, v := range values {
+			for si, sp := range seps {
+				// thin the product: every key x value with the first separator, the other separators with a diagonal
+				if si > 0 && (ki+vi+si)%3 != 0 {
+					continue
+				}
+				for _, second := range []string{"", `,"a":7`, `,"zz":[8]`} {
+					doc := `{"` + k + `"` + sp[0] + `:` + sp[1] + v + second + `}`
+					b := []byte(doc)
+					if !stdjson.Valid(b) {
+						continue
+					}
+					for _, d := range dests {
+						if !c.BeginS("members " + d.name + " <- " + doc) {
+							continue
+						}
+						buf := bufferOutcome(b, d.t, false)
+						whole := streamOutcome(bytes.NewReader(b), d.t, false)
+						c.Outcome(whole)
+						shape := fmt.Sprintf("key %s, %s value", keyShape(k), valShape(v))
+						if buf != whole {
+							c.Violation(fmt.Sprintf("object members : %s : stream-vs-buffer : %s : %s", d.name, shape, c09Verdicts(buf)+" vs "+c09Verdicts(whole)), doc,
+								fmt.Sprintf("Unmarshal %s ; Decoder on the whole input %s", clip([]byte(buf)), clip([]byte(whole))))
+						}
+						try := func(r *chunkReader, what string, cut int) {
+							got := streamOutcome(r, d.t, false)
+							c.Count("chunked_decodes", 1)
+							if got != whole {
+								where := "n/a"
+								if cut >= 0 {
+									where = memberAt(doc, k, cut)
+								}
+								c.Violation(fmt.Sprintf("object members chunking-dependent : %s : %s : cut %s : %s", d.name, shape, where, c09Verdicts(whole)+" -> "+c09Verdicts(got)), doc,
+									fmt.Sprintf("%s: whole-input reader gives %s ; this reader gives %s", what, clip([]byte(whole)), clip([]byte(got))))
+							}
+						}
+						n := len(b)
+						for x := 1; x < n; x++ {
+							try(&chunkReader{data: b, cuts: []int{x}, zeroAt: -1, failAt: -1}, fmt.Sprintf("cut at %d", x), x)
+							if !c.Quick() {
+								for y := x + 1; y < n; y++ {
+									try(&chunkReader{data: b, cuts: []int{x, y}, zeroAt: -1, failAt: -1}, fmt.Sprintf("cuts at %d,%d", x, y), x)
+								}
+							}
+						}
+						for ps := 1; ps <= 4; ps++ {
+							try(&chunkReader{data: b, pieceSize: ps, zeroAt: -1, failAt: -1}, fmt.Sprintf("piece size %d", ps), -1)
+						}
+						if c.WantSample() {
+							c.Sample(d.name + " <- " + doc + " under every cut")
+						}
+						c.EndCase()
+					}
+				}
+			}
+		}
+	}
+}
+
+// memberAt says in which part of the first member a cut falls.
+func memberAt(doc, key string, cut int) string {
+	keyEnd := 2 + len(key) // {"key
+	switch {
+	case cut <= 1:
+		return "before the key"
+	case cut <= keyEnd:
+		return "inside the key"
+	case cut == keyEnd+1:
+		return "after the key"
+	}
+	colon := strings.Index(doc[keyEnd:], ":") + keyEnd
+	if cut <= colon {
+		return "before the colon"
+	}
+	return "in or after the value"
 }
